@@ -1048,7 +1048,7 @@ func main() {
 		doReplay()
 		return
 	}
-	run.Budget(50*time.Second, 9*time.Minute)
+	run.Budget(75*time.Second, 9*time.Minute)
 	var err error
 	skOne, err = crypto.DecodePrivateKey(crypto.BLSBLS12381, refbls.ScalarBytes(big.NewInt(1)))
 	if err != nil {
